@@ -149,7 +149,7 @@ impl Prop for C16 {
         "exploration"
     }
     fn rule(&self) -> String {
-        "run = the `mlar` binary built from the working tree, against a private scratch tree <scratch>/{sandbox/{canary files, sub/canary, out?}, outside-canary, archive.mla}. The archive is written by the library (prod build) with member names drawn from a path grammar: components '..', '.', empty, 200/255-byte, unicode, spaces, '-o', '*', in every position; prefixes '/', '//', './', '../', '../../../../../../../../'; trailing '/'. Command history (seeded): whole-archive extract, extract of one listed name, glob extract ('*' or a seeded pattern), repeated into the same output directory, output directory given relative (cwd = sandbox) or absolute, existing or not. Oracle 1 (all runs): a recursive snapshot (path, type, size, SHA-256, mtime) of the whole scratch tree outside the output directory is unchanged after every command. Oracle 2 (runs whose member names are collision-free once normalised): exit status 0 and every member without a '..' component exists beneath the output directory at its normalised path with exactly its content; members with '..' produce no file anywhere. distinct_nontrivial = distinct (name shape classes, command kinds, relative/absolute, collision-free?) signatures.".into()
+        "run = the `mlar` binary built from the working tree, against a private scratch tree <scratch>/{sandbox/{canary files, sub/canary, out?}, outside-canary, archive.mla}. The archive is written by the library (prod build) with member names drawn from a path grammar: components '..', '.', empty, 200/255-byte, unicode, spaces, '-o', '*', in every position; prefixes '/', '//', './', '../', '../../../../../../../../'; trailing '/'. Command history (seeded): whole-archive extract, extract of one listed name, glob extract ('*' or a seeded pattern), repeated into the same output directory, output directory given relative (cwd = sandbox) or absolute, existing or not. One run in five starts with symbolic links already in the output directory (to a directory outside it, to a file outside it, to a directory inside it) and member names that go through them (`lnkdir/x`, `lnkdir/sub/deeper/x`, `lnkfile`, `inlink/../lnkfile`...); in those runs only files are compared. Oracle 1 (all runs): a recursive snapshot (path, type, size, SHA-256, mtime) of the whole scratch tree outside the output directory is unchanged after every command. Oracle 2 (runs whose member names are collision-free once normalised): exit status 0 and every member without a '..' component exists beneath the output directory at its normalised path with exactly its content; members with '..' produce no file anywhere. distinct_nontrivial = distinct (name shape classes, command kinds, relative/absolute, collision-free?) signatures.".into()
     }
     fn assumptions(&self) -> Vec<String> {
         vec![
@@ -205,9 +205,20 @@ impl Prop for C16 {
             }
             ops.push(WOp::Add { name: Name::lit(&name), data: Data::Rand { n: rng.range(0, 300) as usize + 1, seed: rng.u64() ^ i as u64 }, src: Src::exact() });
         }
+        // one run in five: the output directory already holds symbolic links (to a directory outside it, to a file
+        // outside it, to a directory inside it) and some member names go through them
+        let symlinks = rng.chance(1, 5);
+        if symlinks {
+            for (k, name) in ["lnkdir/x", "lnkdir/sub/deeper/x", "lnkdir/keep", "lnkfile", "inlink/y", "lnkdir/../lnkdir/z", "./lnkfile", "inlink/../lnkfile"].iter().enumerate() {
+                if rng.chance(1, 2) && seen.insert((*name).to_string()) {
+                    ops.push(WOp::Add { name: Name::lit(name), data: Data::Rand { n: rng.range(1, 300) as usize, seed: rng.u64() ^ (k as u64) << 8 }, src: Src::exact() });
+                }
+            }
+        }
         ops.push(WOp::Finalize);
         let mut case = Case::new("C16", cfg, ops);
-        case.params.insert("collision_free".into(), i64::from(collision_free));
+        case.params.insert("symlinks".into(), i64::from(symlinks));
+        case.params.insert("collision_free".into(), i64::from(collision_free && !symlinks));
         case.params.insert("cmd_seed".into(), (rng.u64() >> 1) as i64);
         case.params.insert("absolute".into(), i64::from(rng.chance(1, 2)));
         case.params.insert("out_exists".into(), i64::from(rng.chance(1, 2)));
@@ -236,9 +247,22 @@ impl Prop for C16 {
         std::fs::write(root.join("archive.mla"), sink.data()).unwrap();
         let (_pubs, privs) = write_keys(&root, case.cfg.key_seed, case.cfg.recipients.max(1));
         let out_abs = sandbox.join("out");
-        if case.param("out_exists", 0) == 1 {
+        let symlinks = case.param("symlinks", 0) == 1;
+        if case.param("out_exists", 0) == 1 || symlinks {
             std::fs::create_dir_all(&out_abs).unwrap();
         }
+        if symlinks {
+            crate::seams::fired("preexisting_symlinks_in_output_dir");
+            std::fs::create_dir_all(root.join("outside-dir")).unwrap();
+            std::fs::write(root.join("outside-dir").join("keep"), b"canary-4").unwrap();
+            std::fs::create_dir_all(out_abs.join("inner")).unwrap();
+            let _ = std::os::unix::fs::symlink("../../outside-dir", out_abs.join("lnkdir"));
+            let _ = std::os::unix::fs::symlink("../../outside-canary", out_abs.join("lnkfile"));
+            let _ = std::os::unix::fs::symlink("inner", out_abs.join("inlink"));
+        }
+        // with links in play only FILES are compared (the statement speaks of files; the tool may create an empty
+        // directory before it notices that the path leaves the output directory)
+        let files_only = |m: BTreeMap<String, (char, u64, [u8; 32], u128)>| -> BTreeMap<String, (char, u64, [u8; 32], u128)> { if symlinks { m.into_iter().filter(|(_, v)| v.0 == 'f').collect() } else { m } };
         let absolute = case.param("absolute", 0) == 1;
         let out_arg = if absolute { out_abs.to_string_lossy().to_string() } else { "out".to_string() };
         let archive = root.join("archive.mla").to_string_lossy().to_string();
@@ -246,7 +270,7 @@ impl Prop for C16 {
         let ncmd = crng.range(1, 3);
         let collision_free = case.param("collision_free", 0) == 1;
         let mut kinds = Vec::new();
-        let before = snapshot(&root, &out_abs);
+        let before = files_only(snapshot(&root, &out_abs));
         let mut whole_done = false;
         for ci in 0..ncmd {
             let mut args: Vec<String> = vec!["extract".into(), "-i".into(), archive.clone(), "-o".into(), out_arg.clone()];
@@ -282,10 +306,10 @@ impl Prop for C16 {
             let argv: Vec<&str> = args.iter().map(String::as_str).collect();
             let r = mlar(&sandbox, &argv, None);
             ctx.eval();
-            let after = snapshot(&root, &out_abs);
+            let after = files_only(snapshot(&root, &out_abs));
             if after != before {
                 let changed: Vec<String> = after.iter().filter(|(k, val)| before.get(*k) != Some(*val)).map(|(k, _)| k.clone()).chain(before.keys().filter(|k| !after.contains_key(*k)).cloned()).take(5).collect();
-                v.push(Violation::new("wrote-outside-output-dir", kinds.last().unwrap().to_string(), format!("after `mlar {}` (cwd sandbox): the tree outside the output directory changed: {:?} (members {:?})", args[..args.len().min(8)].join(" "), changed, model.order.iter().map(|n| n.chars().take(30).collect::<String>()).collect::<Vec<_>>())));
+                v.push(Violation::new("wrote-outside-output-dir", format!("{}{}", kinds.last().unwrap(), if symlinks { "|symlinks" } else { "" }), format!("after `mlar {}` (cwd sandbox): the tree outside the output directory changed: {:?} (members {:?})", args[..args.len().min(8)].join(" "), changed, model.order.iter().map(|n| n.chars().take(30).collect::<String>()).collect::<Vec<_>>())));
                 break;
             }
             if collision_free {
@@ -332,7 +356,7 @@ impl Prop for C16 {
             if !n.is_ascii() { v.push("unicode"); }
             v
         }).collect();
-        ctx.sig(format!("{}|{}|abs{}|cf{}|{}", kinds.join("+"), case.cfg.layer_name(), absolute, collision_free, shapes.into_iter().collect::<Vec<_>>().join("+")));
+        ctx.sig(format!("{}|{}|abs{}|cf{}|sl{}|{}", kinds.join("+"), case.cfg.layer_name(), absolute, collision_free, symlinks, shapes.into_iter().collect::<Vec<_>>().join("+")));
         let _ = std::fs::remove_dir_all(&root);
         v
     }
@@ -372,6 +396,23 @@ fn gen_tree(rng: &mut Rng, root: &Path, allow_big: bool) -> BTreeMap<String, Vec
         std::fs::write(root.join(&rel), &data).unwrap();
         files.insert(rel, data);
     }
+    // one tree in three also holds symbolic links to some of its regular files (what `create` stores for such a
+    // path is the file behind the link, under the link's own path)
+    if rng.chance(1, 3) {
+        let targets: Vec<(String, Vec<u8>)> = files.iter().map(|(k, v)| (k.clone(), v.clone())).collect();
+        for k in 0..rng.range(1, 2) {
+            let (t, data) = rng.pick(&targets).clone();
+            let dir = std::path::Path::new(&t).parent().map(|p| p.to_string_lossy().to_string()).unwrap_or_else(|| "tree".into());
+            let rel = if rng.chance(1, 2) { format!("{dir}/link{k} to file") } else { format!("tree/link{k}.lnk") };
+            if files.contains_key(&rel) {
+                continue;
+            }
+            if std::os::unix::fs::symlink(root.join(&t), root.join(&rel)).is_ok() {
+                crate::seams::fired("symlink_to_file_in_input_tree");
+                files.insert(rel, data);
+            }
+        }
+    }
     files
 }
 
@@ -383,7 +424,7 @@ impl Prop for C17 {
         "exploration"
     }
     fn rule(&self) -> String {
-        "run = a seeded file tree (empty files, nested directories, unicode and spaces in names, sizes around 128 KiB and 4 MiB) in a private scratch directory, X25519 key files written in PEM, and a command pipeline of the `mlar` binary built from the working tree: create (seeded layers/level/1..3 recipients; paths given as files, as a directory, or through stdin) then list, list -vv, cat of each file, whole extract, extract of one name, to-tar, and a seeded chain of repair / convert steps to other layer and key choices, re-checked after each step. Model = the file tree: the listing is exactly the given paths; every route returns each file's exact bytes; list -vv shows the true SHA-256 and a size string consistent with the true size; tar entries have the right names, sizes and contents. Key faults: wrong key, missing key for an encrypted archive, key given for an unencrypted archive: the command exits non-zero and leaves no output content (file absent or empty). distinct_nontrivial = distinct (layers, level bucket, recipients, create form, chain of steps, key fault, outcome) signatures.".into()
+        "run = a seeded file tree (empty files, nested directories, unicode and spaces in names, sizes around 128 KiB and 4 MiB; one tree in three with symbolic links to some of its files, expected to be stored as the file behind the link) in a private scratch directory, X25519 key files written in PEM, and a command pipeline of the `mlar` binary built from the working tree: create (seeded layers/level/1..3 recipients; paths given as files, as a directory, or through stdin) then list, list -vv, cat of each file, whole extract, extract of one name, to-tar, and a seeded chain of repair / convert steps to other layer and key choices, re-checked after each step. Model = the file tree: the listing is exactly the given paths; every route returns each file's exact bytes; list -vv shows the true SHA-256 and a size string consistent with the true size; tar entries have the right names, sizes and contents. Key faults: wrong key, missing key for an encrypted archive, key given for an unencrypted archive: the command exits non-zero and leaves no output content (file absent or empty). distinct_nontrivial = distinct (layers, level bucket, recipients, create form, chain of steps, key fault, outcome) signatures.".into()
     }
     fn assumptions(&self) -> Vec<String> {
         vec![
